@@ -102,8 +102,28 @@ def run(F, R):
     for c in ins:
         if len(c.args) >= 3 and derives_from(bc, [c.args[2]], lambda k, x: (k == "call" and x.name.rsplit("::", 1)[-1] in COUNTER and x) or None):
             def_counter = True
-    per_def = bool(refs) and all(fm for g, i, fm in refs) and def_counter
-    R.check((not key_name_only) or per_def, "C28.R2", "cte-cache-key:name-only", "materialised CTE results are cached under a key computed from the CTE name alone, and the name given at the reference site is the table name as written (not a per-definition identity): two WITH scopes that define the same name with different queries share one cache entry", ck.loc(), dict(key_parameters=ck.raw["nargs"], key_users=len(users), reference_sites=len(refs), identity_from_map_entry=[fm for g, i, fm in refs], identity_from_counter=def_counter))
+    # the counter must DECIDE the identity: every switch that chooses between the plain name and the numbered form tests
+    # the per-definition counter (`match *n { 1 => .. }`), not the current scope (contains_key / get on the CTE map) -
+    # sibling WITH clauses are never in each other's scope, so a scope test hands them the same identity
+    scope_decides = False
+    from c15 import controlling_switches
+    for c in ins:
+        if len(c.args) < 3:
+            continue
+        o = origin(bc, c.args[2])
+        idop = o[1][2][0] if (o[0] == "rv" and o[1][0] == "agg" and o[1][1] == "tuple" and o[1][2]) else None
+        if idop is None:
+            continue
+        o2 = origin(bc, idop)
+        idl = o2[1] if o2[0] == "multi" else (place_local(op_place(idop)) if op_place(idop) else None)
+        for bb_, kind_, pay_ in bc.defs().get(idl, []):
+            for sb, val in controlling_switches(bc, bb_):
+                si = bc.switch_info(sb)
+                subj = si[1][0] if si[0] == "enum" else si[1]
+                if subj and derives_from(bc, ["c:" + subj], lambda k, x: (k == "call" and x.name.rsplit("::", 1)[-1] in ("contains_key", "get", "contains") and "HashMap" in (x.self_ty or "") and _ctes_place(bc, x.args[0]) and x) or None):
+                    scope_decides = True
+    per_def = bool(refs) and all(fm for g, i, fm in refs) and def_counter and not scope_decides
+    R.check((not key_name_only) or per_def, "C28.R2", "cte-cache-key:name-only", "materialised CTE results are cached under a key computed from the CTE name alone, and the name given at the reference site is the table name as written (not a per-definition identity): two WITH scopes that define the same name with different queries share one cache entry", ck.loc(), dict(key_parameters=ck.raw["nargs"], key_users=len(users), reference_sites=len(refs), identity_from_map_entry=[fm for g, i, fm in refs], identity_from_counter=def_counter, identity_chosen_by_scope_test=scope_decides))
     import c07
     from report import Report
     R2 = Report("C07", F)
